@@ -38,6 +38,7 @@ type obs struct {
 	done                        bool
 	note                        string
 	seen                        []seenObs
+	sibClosing                  bool
 	parentAsked                 []string
 	parentClosed                bool
 	parentCommitted             bool
@@ -61,6 +62,7 @@ func build(sp Spec, o *obs) func() {
 		var cs app.ContextScope
 		var full app.Scope
 		var parent, child app.Scope
+		var parentCtx app.ContextScope
 		var wg vsched.WaitGroup
 		inClose := false
 		switch sp.Kind {
@@ -68,6 +70,11 @@ func build(sp Spec, o *obs) func() {
 			cs = contextscope.New()
 		case "isolated":
 			cs = contextscope.NewIsolated(contextscope.New())
+		case "isolated-parent-ends":
+			// the context an isolated scope was derived from ends (kill / stop / error) while goroutines signal
+			// on the isolated scope: the end is propagated, and nothing appended to the isolated scope is lost
+			parentCtx = contextscope.New()
+			cs = contextscope.NewIsolated(parentCtx)
 		case "scope":
 			full = scope.New(scope.Params{})
 			cs = full
@@ -78,6 +85,12 @@ func build(sp Spec, o *obs) func() {
 		case "childof-done", "child-racing":
 			parent = scope.New(scope.Params{})
 			cs = parent
+		case "child-racing-sibling":
+			// as child-racing, with a registered sibling that stays open: the parent's Close must wait for it
+			// whatever happens to the child that is created while the parent ends
+			parent = scope.New(scope.Params{})
+			cs = parent
+			child = scope.NewChild(parent, scope.ChildParams{Name: "sibling"})
 		case "orphan-child":
 			// a child created on a scope that has already ended (it is not registered with the parent, so the
 			// parent's Close does not wait for it) keeps signalling while / after the parent is closed
@@ -204,6 +217,12 @@ func build(sp Spec, o *obs) func() {
 						}
 						o.parentAsked = append(o.parentAsked, "Close()="+o.closeErrText)
 						o.parentClosed = true
+					case "ctxkill":
+						parentCtx.Kill()
+					case "ctxstop":
+						parentCtx.Stop()
+					case "ctxerr":
+						parentCtx.AppendError(fmt.Errorf("parent-context-error"))
 					case "newchild-close":
 						// the termexec pattern: a command scope created on a scope that may just have ended
 						ch := scope.NewChild(parent, scope.ChildParams{Name: "cmd"})
@@ -228,6 +247,24 @@ func build(sp Spec, o *obs) func() {
 			// sequential: the parent has ended; creating and closing a child must be safe
 			ch := scope.NewChild(parent, scope.ChildParams{})
 			o.closeErr = ch.Close()
+		}
+		if sp.Kind == "child-racing-sibling" {
+			// (only now: creating a child of a CLOSED scope is a usage error, of a done one it is not)
+			var cwg vsched.WaitGroup
+			cwg.Add(1)
+			vsched.Spawn(func() {
+				defer cwg.Done()
+				parent.Close()
+				if !o.sibClosing {
+					o.note = "the parent's Close returned while a registered child (created before the parent ended) was still open"
+				}
+			})
+			vsched.Yield()
+			o.sibClosing = true
+			child.Close()
+			cwg.Wait()
+			o.done = true
+			return
 		}
 		if sp.Kind == "orphan-child" {
 			o.finalErrs = append([]error{}, cs.Errors()...)
@@ -281,6 +318,26 @@ func judge(sp Spec, o *obs) func(x *explore.Exec) *explore.Verdict {
 			return &explore.Verdict{Kind: "close-result-while-tasks-signal", Clause: "every appended error is retained and reported by ... waiting on or closing it", Detail: o.note}
 		}
 		want := len(o.appended) + o.kills
+		if sp.Kind == "isolated-parent-ends" {
+			for _, e := range o.appended {
+				found := false
+				for _, f := range o.finalErrs {
+					if f == e {
+						found = true
+					}
+				}
+				if !found {
+					return &explore.Verdict{Kind: "error-lost-or-duplicated", Clause: "every appended error is retained and reported by the scope's error accessors", Detail: fmt.Sprintf("error %v appended to the isolated scope while its parent context ended is missing from Errors() = %v", e, o.finalErrs)}
+				}
+			}
+			if !o.isDone {
+				return &explore.Verdict{Kind: "done-signal-wrong", Clause: "the done signal fires when the scope is killed, stopped or receives an error", Detail: "the isolated scope is not done although its parent context ended"}
+			}
+			return nil
+		}
+		if sp.Kind == "child-racing-sibling" {
+			return nil // (o.note, panics and deadlocks are judged above / by the explorer)
+		}
 		if sp.Kind == "orphan-child" {
 			for _, e := range o.appended {
 				found := false
@@ -471,6 +528,18 @@ func programs(thorough bool) []Spec {
 	for _, ev := range []string{"before-close", "commit", "after-commit", "after-close"} {
 		ps = append(ps, Spec{"child-closing", [][]string{{"cclose/" + ev}, {"pwait"}}, b2}, Spec{"child-closing", [][]string{{"cclose/" + ev}, {"pclose"}}, b2},
 			Spec{"child-closing", [][]string{{"cclose/" + ev}, {"pwait"}, {"pclose"}}, b3})
+	}
+	// the parent context of an isolated scope ends while the isolated scope receives errors
+	for _, end := range []string{"ctxkill", "ctxstop", "ctxerr"} {
+		ps = append(ps, Spec{"isolated-parent-ends", [][]string{{end}, {"err"}}, b2},
+			Spec{"isolated-parent-ends", [][]string{{end}, {"err2", "errors"}}, b2},
+			Spec{"isolated-parent-ends", [][]string{{end}, {"err"}, {"err"}}, b3},
+			Spec{"isolated-parent-ends", [][]string{{end}, {"kill"}, {"err"}}, b3})
+	}
+	// a child created while the parent ends, next to a registered sibling that is closed later
+	for _, end := range []string{"stop", "kill", "err"} {
+		ps = append(ps, Spec{"child-racing-sibling", [][]string{{end}, {"newchild-close"}}, b2},
+			Spec{"child-racing-sibling", [][]string{{end}, {"newchild-close"}, {"newchild-close"}}, b3})
 	}
 	// a child of an ended scope signals while / after the parent is closed
 	for _, end := range []string{"stop", "kill", "err"} {
